@@ -263,9 +263,9 @@ included); results in call order -/
 def runCalls (schema : Option (RMsg → Bool)) : TState → List (OrderView × Args) → TState × List (Except Refusal RMsg)
   | st, [] => (st, [])
   | st, (o, a) :: rest =>
-    let (st1, r) := fabricate schema st o a
-    let (st2, rs) := runCalls schema st1 rest
-    (st2, r :: rs)
+    let r := fabricate schema st o a
+    let rs := runCalls schema r.1 rest
+    (rs.1, r.2 :: rs.2)
 
 /-! ### cancel reject -/
 
